@@ -194,6 +194,11 @@ func (b *builder) dt(t *sp.Type) any {
 func (b *builder) attrs(attrs []*sp.Attr, required []string, errName string) {
 	for _, a := range attrs {
 		a := a
+		if a.Inherit {
+			// declared by name only: type, validations and default come from the Reference type
+			Attribute(a.Name)
+			continue
+		}
 		fn := func() {
 			b.valid(a.T.V)
 			if a.HasDefault {
@@ -239,10 +244,11 @@ func (b *builder) attr(a *sp.Attr, fn func()) {
 		}
 	}
 	if a.T.K == sp.KUnion {
-		// OneOf union (gRPC families): the alternatives are declared like attributes
+		// OneOf union: the alternatives are declared like attributes (with their validations)
 		OneOf(a.Name, func() {
 			for _, alt := range a.T.Attrs {
-				b.attr(alt, func() {})
+				alt := alt
+				b.attr(alt, func() { b.valid(alt.T.V) })
 			}
 		})
 		return
